@@ -271,6 +271,12 @@ def sites(tree):
                 tree.body.insert(pos, ast.Import(names=[ast.alias(name="logging", asname=None)]))
         if not any(isinstance(n, ast.Name) and n.id == "logging" for n in ast.walk(fn)):
             out.append(("log-call", fname, fn.lineno, b25))
+        # B26 a docstring for a function that has none
+        if not (fn.body and isinstance(fn.body[0], ast.Expr) and isinstance(fn.body[0].value, ast.Constant)
+                and isinstance(fn.body[0].value.value, str)):
+            def b26(fn=fn):
+                fn.body.insert(0, ast.Expr(value=ast.Constant(value=" %s (documented). " % fn.name)))
+            out.append(("add-docstring", fname, fn.lineno, b26))
         # B24 annotate the plain parameters and the result of the function
         if fn.args.args and not any(a.annotation for a in fn.args.args) and fn.returns is None:
             def b24(fn=fn):
@@ -410,6 +416,7 @@ def main():
     ap.add_argument("--props", nargs="*")
     ap.add_argument("--out")
     ap.add_argument("--keep-bad")
+    ap.add_argument("--kinds", nargs="*", help="only these rewrite kinds")
     ap.add_argument("--combo", type=int, default=1, help="rewrites per variant (the others in other functions of the file)")
     a = ap.parse_args()
     import tempfile
@@ -425,6 +432,8 @@ def main():
         src = open(os.path.join(pkg, f)).read()
         for kind, fname, ln, _ in sites(ast.parse(src)):
             pool.setdefault(kind, []).append({"file": f, "kind": kind, "function": fname, "line": ln})
+    if a.kinds:
+        pool = {k: v for k, v in pool.items() if k in a.kinds}
     chosen = []
     for kind in sorted(pool):
         items = pool[kind]
